@@ -85,6 +85,11 @@ PROPS = {
         profiles=dict(quick=[('parse', 150, 1), ('life', 25, 1)], thorough=[('parse', 1500, 8), ('life', 300, 8), ('tags', 100, 2), ('frag', 40, 2)]),
         explanation='total model with explicit panic outcomes; theorems: complete list of panic sites reachable from a data message, no panic under the session invariants, allocation bound of ExtractMPIs (Props.C13); Go harness runs every public parser and Receive in every conversation state on structured/mutated/raw input under recover with time and allocation measurement, a usability probe afterwards, and fails or shortens the k-th randomness read for every k',
         assumptions=['s-expression / key-file reader: see the keyfile profile (DESIGN §7 C13)', 'Go runtime behaviour (stack, GC) is observed, not modelled']),
+    'C08': dict(
+        module='Props.C08', level='proof',
+        profiles=dict(quick=[('mem', 20, 1)], thorough=[('mem', 150, 8)]),
+        explanation='model-level theorems (Props.C08: only two DH key slots plus the exchange in progress; exact reset of the AKE context on completion, of keys/SMP/AKE on End and peer disconnect); heap level: reflection scan of the object graph reachable from the real *Conversation after every API call for every secret drawn from Conversation.Rand and every text, with alias tracking to tell zeroed from dropped buffers',
+        assumptions=['copies made and dropped inside a single call, registers, stack and GC relocation are not visible to the scan', 'known finding: SMP exponents dropped without zeroing (test-pinned)']),
 }
 
 # properties not claimed yet (kept current; each is moved into PROPS when its check exists)
